@@ -978,6 +978,12 @@ impl Rig {
                 let kk = self.shared.get_key_keeper_shared_state();
                 let _ = self.rt.block_on(kk.notify());
             }
+            // the secure-channel state string the key keeper publishes (environment of the request handlers)
+            "set_channel_state" => {
+                let kk = self.shared.get_key_keeper_shared_state();
+                let r = self.rt.block_on(kk.update_current_secure_channel_state(st["state"].as_str().unwrap_or("Unknown").to_string()));
+                verif::trace::emit(json!({"e": "ChannelState", "state": st["state"], "ok": r.is_ok()}));
+            }
             "key_state" => {
                 let kk = self.shared.get_key_keeper_shared_state();
                 let guid = self.rt.block_on(kk.get_current_key_guid()).unwrap_or(None);
@@ -1098,7 +1104,18 @@ impl Rig {
 
 fn recv_one(conn: &str, id: &str, g: &mut ClientConn, send_err: Option<String>) {
     let mut buf = std::mem::take(&mut g.buf);
-    let r = read_message(&mut g.stream, &mut buf, true, false);
+    let mut r = read_message(&mut g.stream, &mut buf, true, false);
+    // interim responses (100 Continue) are not the answer: skip them
+    for _ in 0..3 {
+        match &r {
+            Ok(Some(p)) if p.target.parse::<u16>().map(|s| (100..200).contains(&s)).unwrap_or(false) => {
+                let n = p.total_len;
+                buf.drain(..n);
+                r = read_message(&mut g.stream, &mut buf, true, false);
+            }
+            _ => break,
+        }
+    }
     match r {
         Ok(Some(p)) => {
             verif::trace::emit(json!({"e": "Response", "conn": conn, "id": id, "status": p.target.parse::<u16>().unwrap_or(0),
